@@ -678,6 +678,14 @@ impl DtlsInner {
                                     is_client,
                                 )
                                 .await?;
+                            } else if msg.msg_type == HandshakeType::Finished
+                                && !is_client
+                                && let Some(records) = &ctx.last_flight_records
+                            {
+                                // RFC 6347 §4.2.4: the client retransmits its Finished
+                                // because our final flight (CCS + Finished) was lost;
+                                // we are already Connected and no timer would resend it.
+                                let _ = self.conn.send_dtls_record_batch(records).await;
                             }
                             continue;
                         }
